@@ -719,7 +719,8 @@ def run(ck):
         "C09: float64 is abstract in the theorems; the correspondence instantiates it with Coq's primitive binary64 floats; generated values keep cross-series sums exact so that Go's unspecified map iteration order cannot change a result",
         "C09: Go maps are not shared between entries on input (the ClickHouse getter builds a fresh map per row); the aggregators share one map among the entries of a series, and the stages after them apply the same idempotent cut to every sharer",
         "C09: the SQL engine's side of the cross-engine theorems is C07's reference semantics (model/LogqlSem.v run_stages), proved equal to sem_chain on line filter / label filter / json parameters / drop under the decoder link decoders_linked (no longer false for a missing path or an empty value since /repo 1b5bff2 + 7f68b19: Example missing_path_keeps_the_label_on_both_paths); the tie of that reference to the generated SQL is C07's theorem",
-        "C09: the byte-level JSON decoder (go-faster/jx: Next/Obj/Arr/Str/Raw/Skip) is the oracle that turns a line into a value tree; qryn's own code on the tree (nested-key flattening, sanitizeLabel, the typed path walker) is model/InternalJson.v, tied on every generated (parameters, line) row; lines on which jx.Skip and the full walk disagree are counted, not compared; shared.JsonPathParamToTypedArray (participle grammar) supplies the typed paths; logfmt decoding stays an oracle",
+        "C09: the byte-level JSON decoder (go-faster/jx: Next/Obj/Arr/Str/Raw/Skip) is the oracle that turns a line into a value tree; qryn's own code on the tree (nested-key flattening, sanitizeLabel, the typed path walker) is model/InternalJson.v, tied on every generated (parameters, line) row; lines on which jx.Skip and the full walk disagree are counted, not compared; shared.JsonPathParamToTypedArray (participle grammar) supplies the typed paths; the logfmt decoder (github.com/kr/logfmt) is the oracle that yields the (key, value) pairs of a line, what HandleLogfmt does with them (sanitizeLabel, later pair wins, the field table of `| logfmt l=\"key\"`) is the model's; label names are judged against the definition by value (RFC 3629 characters, model label_name; sanitize_one_underscore_per_character)",
+        "C09: that an integer argument of ClickHouse's JSONExtract* functions is an array index counted from 1 and a string argument an object key is read from the ClickHouse documentation (json_index_scan compares the printed path arguments of the real planner with the in-process reading)",
         "C09: that ClickHouse's JSONType / JSONExtractString / JSONExtractRaw (C07's oracle json_get) and jx read the same text under a path is the remaining hypothesis decoders_linked of the SQL/in-process theorem (a path that ends at an object / array: ClickHouse extracts its raw text, the in-process walker assigns nothing)",
     ]
     ck.coq_props()
